@@ -230,10 +230,12 @@ class Render:
     """Renders a skeleton to (Circom text of the statement, S-expression),
     numbering leaves and conditions 1, 2, ... in text order."""
 
-    def __init__(self):
+    def __init__(self, rich=None):
         self.n = 0
         self.depth = {}      # id -> syntactic loop nesting (a loop condition counts outside)
         self.d = 0
+        self.rich = rich     # None: the C12 rendering; an int: salt of the C13 rendering (rich_leaf)
+        self.compound = {}   # id -> (source text, S-expression of the surface statement, position)   [rich only]
 
     def fresh(self):
         self.n += 1
@@ -242,9 +244,51 @@ class Render:
 
     def leaf(self, semi=True):
         i = self.fresh()
+        if self.rich is not None:
+            return self.rich_leaf(i, semi)
         if i % 3 == 0:
             return ("x += %d%s" % (i, ";" if semi else ""), "(A %d)" % i)
         return ("x = x + %d%s" % (i, ";" if semi else ""), "(L %d)" % i)
+
+    def rich_leaf(self, i, semi):
+        """C13: every compound assignment of ParseSubstitution (lang.lalrpop 259-299)
+        on a scalar `c<i>` or an array element `q<i>[..]`/`q<i>[..][..]`, with
+        right-hand sides that are not symmetric in their operands; the leaf is
+        identified by the digits of its target's name.  The choice is a fixed
+        function of (salt, id)."""
+        h = ((i + 1) * 2654435761 + (self.rich + 1) * 40503) & 0xffffffff
+        h ^= h >> 13
+        form, h = h % 16, h // 16
+        tkind, h = h % 3, h // 3
+        ekind, h = h % 4, h // 4
+        ikind, h = h % 3, h // 3
+        end = ";" if semi else ""
+        if form == 14:
+            return ("x = x + %d%s" % (i, end), "(L %d)" % i)
+        if form == 15:
+            return ("x += %d%s" % (i, end), "(A %d)" % i)
+        idx = [("x", "(V x)"), ("%d" % i, "(N %d)" % i), ("x + 1", "(Add (V x) (N 1))")]
+        if tkind == 0:
+            tt, ts = "c%d" % i, "(V c%d)" % i
+        elif tkind == 1:
+            a = idx[ikind]
+            tt, ts = "q%d[%s]" % (i, a[0]), "(V q%d %s)" % (i, a[1])
+        else:
+            a, b = idx[ikind], idx[(ikind + 1) % 3]
+            tt, ts = "q%d[%s][%s]" % (i, a[0], b[0]), "(V q%d %s %s)" % (i, a[1], b[1])
+        if form == 12:
+            text, sx = tt + "++", "(Inc %s)" % ts
+        elif form == 13:
+            text, sx = tt + "--", "(Dec %s)" % ts
+        else:
+            tok, op = COMPOUND_OPS[form]
+            et, es = [("%d" % i, "(N %d)" % i),
+                      ("(%d - %s)" % (i, tt), "(Sub (N %d) %s)" % (i, ts)),
+                      ("(x - %d)" % i, "(Sub (V x) (N %d))" % i),
+                      ("q0[%d] ** x" % i, "(Pow (V q0 (N %d)) (V x))" % i)][ekind]
+            text, sx = "%s %s %s" % (tt, tok, et), "(Op %s %s %s)" % (op, ts, es)
+        self.compound[i] = (text, sx, "statement" if semi else "for-header")
+        return (text + end, "(A %d %s)" % (i, sx))
 
     def init(self, pat, semi=True):
         syms, sx = [], []
@@ -299,10 +343,15 @@ class Render:
         raise ValueError(s)
 
 
-def render(body):
+# the compound assignment tokens of ParseSubstitution with the opcode each stands for
+COMPOUND_OPS = [("+=", "Add"), ("-=", "Sub"), ("*=", "Mul"), ("**=", "Pow"), ("/=", "Div"), ("\\=", "IntDiv"),
+                ("%=", "Mod"), ("<<=", "ShiftL"), (">>=", "ShiftR"), ("&=", "BitAnd"), ("|=", "BitOr"), ("^=", "BitXor")]
+
+
+def render(body, rich=None):
     """(source text of a function with this body, S-expression of the body,
     {id: syntactic loop nesting})"""
-    r = Render()
+    r = Render(rich)
     text, sx = r.stmt(body)
     return "function f(x) %s" % text, sx, r.depth
 
@@ -475,9 +524,14 @@ def containment_failures(trace_tree, walk_tree):
 # running both sides
 # --------------------------------------------------------------------------
 
-def make_case(body):
-    text, sx, depth = render(body)
-    return {"body": body, "src": text, "sx": sx, "depth": depth}
+def make_case(body, rich=None):
+    if rich is None:
+        text, sx, depth = render(body)
+        return {"body": body, "src": text, "sx": sx, "depth": depth}
+    r = Render(rich)
+    text, sx = r.stmt(body)
+    return {"body": body, "src": "function f(x) %s" % text, "sx": sx, "depth": r.depth, "rich": rich,
+            "compound": r.compound}
 
 
 def count_else(s):
@@ -548,6 +602,54 @@ def run_walk(common, cases, n, chunk=100000):
             raise common.BuildError("lift engine: output length mismatch", "%d %d %d" % (len(part), len(impl), len(model)))
         out.extend(zip(part, impl, model))
     return out
+
+
+def parse_forms(text):
+    """'7=(= (V c7) (Sub (V c7) (N 7)))|9=...' -> {id: [form, ...]}"""
+    out = {}
+    for part in text.strip().split("|"):
+        if part:
+            k, _, v = part.partition("=")
+            out.setdefault(k, []).append(v)
+    return out
+
+
+def run_forms(common, cases, chunk=200000):
+    """C13: [(case, impl_line, model_line)] with the canonical form of every
+    lifted assignment to a c<id>/q<id> target (harness, mode `forms`) and the
+    expected plain assignment of every compound leaf by Spec.SurfaceSpec
+    .expected_statement and by the mirror Model.Shortcuts.parse_substitution
+    (model driver, mode `forms`)."""
+    mb = common.build_model("lift")
+    out = []
+    for a in range(0, len(cases), chunk):
+        part = cases[a:a + chunk]
+        b, args = harness_cmd(common, ["forms"])
+        impl = common.run_lines(b, args, [hexline(c["src"]) for c in part], shards=common.NPROC)
+        model = common.run_lines(mb, ["forms"], [c["sx"] for c in part], shards=common.NPROC)
+        if len(impl) != len(part) or len(model) != len(part):
+            raise common.BuildError("lift engine: output length mismatch", "%d %d %d" % (len(part), len(impl), len(model)))
+        out.extend(zip(part, impl, model))
+    return out
+
+
+def forms_compare(case, impl, model):
+    """(spec failures, mirror disagreements): lists of strings.  Every compound
+    leaf of the source must be lifted, exactly once, as the plain assignment the
+    specification expects."""
+    if not (impl.startswith("forms ") and model.startswith("forms ") and " # " in model):
+        return (["forms not available: impl %s / spec %s" % (impl[:200], model[:200])], [])
+    spec_s, mirror_s = model[6:].split(" # ", 1)
+    got, spec, mirror = parse_forms(impl[6:]), parse_forms(spec_s), parse_forms(mirror_s)
+    bad, dis = [], []
+    texts = case.get("compound", {})
+    for k in sorted(set(got) | set(spec), key=lambda x: (len(x), x)):
+        src = texts.get(int(k), ("?",))[0] if k.isdigit() else "?"
+        if got.get(k) != spec.get(k):
+            bad.append("`%s` is lifted as %s, its expansion is %s" % (src, got.get(k), spec.get(k)))
+        if got.get(k) != mirror.get(k):
+            dis.append("`%s`: implementation %s, Model.Shortcuts %s" % (src, got.get(k), mirror.get(k)))
+    return bad, dis
 
 
 def cfg_compare(case, impl, model):
